@@ -33,13 +33,13 @@ out['suite_with_patch'] = suite()
 assert sh('git apply %s/demo.diff' % d).returncode == 0, 'demo does not apply'
 res = []
 for c in cmds:
-    r = sh(c + ' 2>&1 | grep -E "^test result|error(\\[|:)" | head -3')
+    r = sh(c + ' 2>&1 | grep -E "^test result|^error: test failed" | head -4')
     res.append(r.stdout.strip().replace('\n', ' | ')[:200])
 out['demo_with_patch'] = res
 sh('git apply -R %s/patch.diff' % d)
 res = []
 for c in cmds:
-    r = sh(c + ' 2>&1 | grep -E "^test result|error(\\[|:)" | head -3')
+    r = sh(c + ' 2>&1 | grep -E "^test result|^error: test failed" | head -4')
     res.append(r.stdout.strip().replace('\n', ' | ')[:200])
 out['demo_at_head'] = res
 out['demo_cmds'] = cmds
